@@ -23,7 +23,8 @@ RULE = ("seeded random (brightness in {0,tiny,random,1}, purity in (0.5,1] incl.
         "lossless/lossy circuits x both backends; distinct = (which parameters are non-ideal, bunched?, photons, "
         "lossy?, backend, threshold?, heralded?); non-trivial = at least one non-ideal parameter")
 MANDATORY = ["all_three_nonideal_3photons", "bunched_impure", "lossy_dim", "threshold", "slos", "permanent",
-             "g2_checked", "hom_checked", "perfect_checked", "classical_checked", "herald_photons"]
+             "g2_checked", "hom_checked", "perfect_checked", "classical_checked", "herald_photons",
+             "source_retuned_by_tiny_amount"]
 DECIDING = ["mon.source_stats_postconditions", "mon.sampler_source_postconditions"]
 BUDGET = {"quick": 30, "thorough": 480}
 ASSUMPTIONS = ["reference = generative emission model (pair probability from g2 = 1 - purity, independent survival "
@@ -159,6 +160,17 @@ def run(ctx):
                 if worst > 1e-7:
                     ctx.violation(f"indistinguishability 0 differs from classical particles by {worst:.3g}", case=case,
                                   mechanism="classical", monitor="derived: classical particles")
+        if dist is not None and not thr and rng.random() < 0.4:
+            # the same long-lived sampler after its source was re-tuned by a tiny amount
+            which = str(rng.choice(["brightness", "purity", "indistinguishability"]))
+            cur = getattr(smp.source, which)
+            newv = cur * (1 - float(rng.choice([4e-4, 1e-5, 3e-7]))) if cur > 0.51 else cur
+            try:
+                setattr(smp.source, which, newv)
+                ctx.bucket("source_retuned_by_tiny_amount")
+                _ = smp.probability_distribution        # the post-condition monitor recomputes the reference
+            except Exception as e:  # noqa: BLE001
+                ctx.count("retune_raised:" + type(e).__name__)
         key = (nonideal, bunched, sum(full_occ), n_loss > 0, backend, bool(thr), bool(hph))
         ctx.case(key, any(nonideal), sample=case)
         drain_into(ctx, case)
